@@ -258,6 +258,27 @@ def _parse_nat_list(out):
     return [int(x) for x in re.split(r"\s*;\s*", body)]
 
 
+_BUILT = {}
+
+
+def ensure_built(header):
+    """The cases files import compiled model libraries: (re)build exactly those
+    (and what they depend on) from the current sources first, so that a model
+    regenerated from /repo's current source is what gets evaluated.  Returns an
+    error text or None."""
+    mods = []
+    for m in re.finditer(r"From\s+MWF\s+Require\s+(?:Import|Export)\s+(.*?)\.(?=\s|$)", header, re.S):
+        mods += m.group(1).split()
+    targets = tuple(sorted(set("theories/" + m.replace(".", "/") + ".vo" for m in mods)))
+    if not targets:
+        return None
+    if targets in _BUILT:
+        return _BUILT[targets]
+    ok, out = coq_make(list(targets))
+    _BUILT[targets] = None if ok else "building the model libraries %s failed:\n%s" % (" ".join(targets), out[-3000:])
+    return _BUILT[targets]
+
+
 def coq_failing(tag, header, ty, fn, cases, shard=400, timeout=900):
     """Evaluate the boolean Gallina function `fn : ty -> bool` on every case
     (Gallina literal text) inside Coq and return (bad_indices, errors).
@@ -265,6 +286,9 @@ def coq_failing(tag, header, ty, fn, cases, shard=400, timeout=900):
     d = os.path.join(WORK, tag)
     shutil.rmtree(d, ignore_errors=True)
     os.makedirs(d)
+    err = ensure_built(header)
+    if err:
+        return [], [("model libraries", err)]
     files = []
     for k in range(0, len(cases), shard):
         chunk = cases[k:k + shard]
@@ -296,6 +320,9 @@ def coq_eval(tag, header, expr, timeout=300):
     """Evaluate one Gallina expression with vm_compute and return Coq's text."""
     d = os.path.join(WORK, tag)
     os.makedirs(d, exist_ok=True)
+    err = ensure_built(header)
+    if err:
+        return err
     path = os.path.join(d, "eval_%d.v" % (abs(hash(expr)) % 10**9))
     with open(path, "w") as f:
         f.write(header + "\nEval vm_compute in (%s).\n" % expr)
